@@ -385,6 +385,27 @@ def np_call(name: str, args: list, kwargs: dict) -> Any:
     f = {'min': BIN['minimum'], 'amin': BIN['minimum'], 'max': BIN['maximum'], 'amax': BIN['maximum'], 'sum': operator.add}[name]
     axis = kwargs.get('axis', args[1] if len(args) > 1 else None)
     return a0.reduce(f, axis, bool(kwargs.get('keepdims', False)))
+  if name in ('left_shift', 'right_shift', 'bitwise_or', 'bitwise_and', 'bitwise_xor') and len(args) == 2:
+    f = {'left_shift': operator.lshift, 'right_shift': operator.rshift, 'bitwise_or': operator.or_, 'bitwise_and': operator.and_, 'bitwise_xor': operator.xor}[name]
+    r = NdArr.broadcast(f, args[0], args[1])
+    if isinstance(r, NdArr):
+      r.kind = 'i'
+    return r
+  if name == 'pad' and len(args) == 2 and set(kwargs) <= {'constant_values', 'mode'} and kwargs.get('mode', 'constant') == 'constant':
+    fill = kwargs.get('constant_values', 0)
+    widths = args[1]
+    if isinstance(widths, int):
+      widths = [(widths, widths)] * a0.ndim
+    elif isinstance(widths, (list, tuple)) and len(widths) == 2 and all(isinstance(w, int) for w in widths):
+      widths = [tuple(widths)] * a0.ndim
+    widths = [tuple(w) for w in widths]
+    if len(widths) != a0.ndim or not isinstance(fill, (int, float)) or any(len(w) != 2 or min(w) < 0 for w in widths):
+      raise NotModelled('pad widths')
+    new_shape = tuple(s_ + w[0] + w[1] for s_, w in zip(a0.shape, widths))
+    out = NdArr(new_shape, [fill] * _prod(new_shape), a0.kind)
+    for idx in itertools.product(*[range(s_) for s_ in a0.shape]):
+      out.data[sum((i + w[0]) * st for i, w, st in zip(idx, widths, out._strides()))] = a0.at(idx)  # pylint: disable=protected-access
+    return out
   if name == 'square' and len(args) == 1:
     return a0.map(lambda x: x * x)
   if name == 'mean' and len(args) == 1 and not kwargs:
@@ -442,6 +463,11 @@ def np_call(name: str, args: list, kwargs: dict) -> Any:
 def method(arr: NdArr, attr: str, args: list, kwargs: dict) -> Any:
   if attr in ('mean', 'sum', 'min', 'max') and not args and not kwargs:
     return np_call(attr, [arr], {})
+  if attr == 'tobytes' and not args and not kwargs:
+    # one byte per element, two's complement: only for arrays known to hold 8-bit integers
+    if arr.kind != 'i' or any(not isinstance(x, int) or not -128 <= x <= 255 for x in arr.data):
+      raise NotModelled('tobytes of a non-8-bit array')
+    return bytes(x & 0xFF for x in arr.data)
   if attr == 'reshape':
     return arr.reshape(args[0] if len(args) == 1 else tuple(args))
   if attr == 'transpose':
@@ -453,6 +479,9 @@ def method(arr: NdArr, attr: str, args: list, kwargs: dict) -> Any:
     bits = {'int8': 8, 'int16': 16, 'int32': 32, 'int64': 64, 'uint8': 8, 'uint16': 16, 'uint32': 32, 'uint64': 64}.get(tname)
     if bits is not None:
       lo, hi = (0, (1 << bits) - 1) if tname.startswith('u') else (-(1 << (bits - 1)), (1 << (bits - 1)) - 1)
+      if tname.startswith('u') and arr.kind == 'i' and all(isinstance(x, int) for x in arr.data):
+        # integer -> unsigned integer is defined in numpy: the value modulo 2^bits (bit manipulation relies on it)
+        return NdArr(arr.shape, [x & ((1 << bits) - 1) for x in arr.data], 'i')
       for x in arr.data:
         if not lo <= x <= hi:
           raise OverflowError(f'{x} cast to {tname} wraps around')
